@@ -21,7 +21,8 @@ import (
 //	E key data    env key=data            P path keep   env PATH=$WORK/path[${:}$PATH]
 //	D id bad      register a Defer        G id neg      [!] exec helper sleep &
 //	O probe   F failing line   K skip   T stop   Z panic in a custom command
-//	N kill (every background command)   Y kill, then wait
+//	N kill (every background command)   Y kill, then wait   U wait (no signal)
+//	G with an id >= 100: the command exits at once by itself with status 1 (exec helper exit 1 &)
 //	I neg key sub [exec:key] sub  /  [!exec:key] sub
 type Action struct {
 	Op   string  `json:"op"`
@@ -168,15 +169,18 @@ type Script struct {
 }
 
 type Batch struct {
-	Retain          string   `json:"retain,omitempty"` // "" | testwork | workdirroot | flag
-	Verbose         bool     `json:"verbose,omitempty"`
-	Procs           int      `json:"procs,omitempty"` // GOMAXPROCS of the child
-	Par             int      `json:"par,omitempty"`   // subtests running at the same time (testing's -parallel)
-	Canary          bool     `json:"canary,omitempty"`
-	Cover           bool     `json:"cover,omitempty"` // set GOCOVERDIR in the host environment
-	NonRoot         bool     `json:"nonroot,omitempty"`
-	ContinueOnError bool     `json:"continue_on_error,omitempty"`
-	Scripts         []Script `json:"scripts"`
+	Retain          string `json:"retain,omitempty"` // "" | testwork | workdirroot | flag
+	Verbose         bool   `json:"verbose,omitempty"`
+	Procs           int    `json:"procs,omitempty"` // GOMAXPROCS of the child
+	Par             int    `json:"par,omitempty"`   // subtests running at the same time (testing's -parallel)
+	Canary          bool   `json:"canary,omitempty"`
+	Cover           bool   `json:"cover,omitempty"` // set GOCOVERDIR in the host environment
+	NonRoot         bool   `json:"nonroot,omitempty"`
+	ContinueOnError bool   `json:"continue_on_error,omitempty"`
+	// SeqT: the T handed to RunT runs every subtest to its end inside Run and its Parallel does nothing
+	// (cmd/testscript's own T does that): the scripts run one after the other.
+	SeqT    bool     `json:"seq_t,omitempty"`
+	Scripts []Script `json:"scripts"`
 }
 
 func hx(s string) string { return common.Hex([]byte(s)) }
@@ -209,7 +213,7 @@ func (a *Action) modelTokens(out *[]string) {
 		*out = append(*out, "P", pathTok(a.Path), b01(a.Flag))
 	case "D", "G":
 		*out = append(*out, a.Op, fmt.Sprint(a.ID), b01(a.Flag))
-	case "O", "F", "K", "T", "Z", "N", "Y":
+	case "O", "F", "K", "T", "Z", "N", "Y", "U":
 		*out = append(*out, a.Op)
 	case "I":
 		*out = append(*out, "I", b01(a.Flag), hx(a.Key))
@@ -346,6 +350,9 @@ func (a *Action) lines() []string {
 		if a.Flag {
 			neg = "! "
 		}
+		if a.ID >= 100 {
+			return []string{neg + "exec helper exit 1 &", fmt.Sprintf("bgrecord %d", a.ID)}
+		}
 		return []string{neg + "exec helper sleep &", fmt.Sprintf("bgrecord %d", a.ID)}
 	case "O":
 		return []string{"probe"}
@@ -361,6 +368,8 @@ func (a *Action) lines() []string {
 		return []string{"kill"}
 	case "Y":
 		return []string{"kill", "wait"}
+	case "U":
+		return []string{"wait"}
 	case "I":
 		sub := a.Sub.lines()
 		neg := ""
@@ -375,7 +384,7 @@ func (a *Action) lines() []string {
 // singleLine reports whether the action may be guarded by a condition (renders as one line).
 func (a *Action) singleLine() bool {
 	switch a.Op {
-	case "G", "Y":
+	case "G", "Y", "U":
 		return false
 	}
 	return true
@@ -449,16 +458,37 @@ func genAction(r *common.RNG, st *genState, allowEnd bool, depth int) Action {
 			if st.nBg >= 2 || depth > 0 || st.killed {
 				continue
 			}
+			neg := r.Chance(1, 3)
+			if r.Chance(1, 3) {
+				// a command that exits at once with status 1
+				st.nQuick++
+				st.bgs = append(st.bgs, genBg{neg: neg, quick: true})
+				return Action{Op: "G", ID: 99 + st.nQuick, Flag: neg}
+			}
 			st.nBg++
-			return Action{Op: "G", ID: st.nBg, Flag: r.Chance(1, 3)}
+			st.bgs = append(st.bgs, genBg{neg: neg})
+			return Action{Op: "G", ID: st.nBg, Flag: neg}
 		case k < 18:
 			// at most one kill per script: signalling a process that has been reaped is an error
+			if depth == 0 && len(st.bgs) > 0 && st.waitOutcome() != "stuck" && r.Chance(1, 2) {
+				// a bare wait, only where it cannot block for ever
+				if st.waitOutcome() == "ok" {
+					st.bgs = nil
+				}
+				return Action{Op: "U"}
+			}
 			if st.killed || st.nBg == 0 {
 				continue
 			}
 			st.killed = true
+			for i := range st.bgs {
+				st.bgs[i].signalled = true
+			}
 			if depth > 0 || r.Chance(1, 2) {
 				return Action{Op: "N"}
+			}
+			if st.waitOutcome() == "ok" {
+				st.bgs = nil
 			}
 			return Action{Op: "Y"}
 		case k < 21:
@@ -479,11 +509,31 @@ func genAction(r *common.RNG, st *genState, allowEnd bool, depth int) Action {
 	}
 }
 
+type genBg struct {
+	neg, quick, signalled bool
+}
+
 type genState struct {
 	pathSet bool
 	nDefer  int
 	nBg     int
+	nQuick  int
 	killed  bool
+	bgs     []genBg // the background commands the script has started and not yet waited for, in order
+}
+
+// waitOutcome: what a status-checking wait over the list does: "ok" (all accepted: the list is
+// emptied), "fail" (an unaccepted status is met first) or "stuck" (a running command is met first).
+func (st *genState) waitOutcome() string {
+	for _, b := range st.bgs {
+		if !(b.quick || b.signalled) {
+			return "stuck"
+		}
+		if !b.neg {
+			return "fail"
+		}
+	}
+	return "ok"
 }
 
 func genScript(r *common.RNG, name string) Script {
